@@ -36,3 +36,11 @@ def register_all(chk):
         "proofs of C08/C10 (index < len, weight non-zero, no panic). Known findings (Gumbel/Frechet at a uniform draw of exactly 1) are pinned by "
         "their own harnesses and excluded by an explicit assume. Samplers with rejection loops and product-bounded supports are NOT claimed (see not_reached in DESIGN.md).",
         verus=False, kani=True)
+    chk.contract_property(
+        "C06", "Ziggurat primitives: tables and algorithm define N(0,1) and Exp(1)",
+        "(a) The table invariants are a closed finite obligation set, discharged exhaustively by CBMC on the concrete constants of "
+        "ziggurat_tables.rs (all 4x257 entries and both tail constants): end points, X[1]==R, strict monotonicity, F[i]==pdf(X[i]) to 1e-14 "
+        "(real libm exp), all 255 layer areas equal to X[0]*F[1] to 1e-8 relative, base strip + tail == that area. (b) Step contracts of "
+        "utils::ziggurat / the tail closures on the real code for every RNG word (one iteration: bounded units, never counted as proved): value "
+        "inside the selected layer, sign of u, tail beyond R. The sampled LAW (Kolmogorov distance, per-layer mass) is not decidable by contracts and is not claimed.",
+        verus=False, kani=True)
